@@ -135,6 +135,21 @@ CHECKS = {
               "get_config keys; unknown shapes make it emit translation_ok = false. Which parameters are semantic is a hand-written table "
               "(all but var_name, use_variables, use_ste). get_quantizer(dict) is broken under the pinned Keras 3 (known finding)."),
         technique="Coq proof (generic record round trip) + model regenerated from source by a translator + differential correspondence"),
+    "C10": dict(
+        category="proof",
+        text=("Coq theorems (Properties/C10.v) over a string-level model of safe_eval.py: integer literals (all of Z, via the standard "
+              "library's decimal printer/parser), booleans, None and float tokens are read back as themselves; positional items are "
+              "converted one by one in order; a positional item after a keyword item is rejected for EVERY item list; the model has no "
+              "evaluation construct and the set of names called anywhere in the CURRENT safe_eval.py (regenerated by the translator) is "
+              "inside an allow-list without eval/exec/compile/__import__/getattr. For str(q) the __str__ emission tables are regenerated "
+              "from source: positional flags are in constructor order for every class and prefix-closed for every valuation of the guards "
+              "except four recorded classes. Correspondence: generated argument strings through the real GetParams/safe_eval vs the Coq "
+              "parser vs Python's own eval; get_quantizer(str(q)) over the C09 option lattice. Three genuine defects repaired (fix: commits)."),
+        design_ref="DESIGN.md section 5 C10, section 10",
+        note=(TB_COMMON + "pyparsing's tokenisation is modelled (split at commas, key [^=,)\\s]+, value [^,)]*) and compared on every "
+              "string; Python float() is an oracle (tokens compared in Coq, values in the harness). The literal grammar has no blank before a "
+              "comma and number lists only as keyword values in numpy print form. Translator tools/translate/qmeta.py trusted, fail-closed."),
+        technique="Coq proof over a string-level parser model + tables regenerated from source by a translator + differential correspondence"),
 }
 
 NOT_YET = "check not built yet in this development (design in DESIGN.md section 5); not a claim that proof is inapplicable"
